@@ -80,7 +80,7 @@ func VerifH_C20_DoHAbandonedRequest() { vDoHAbandoned() }
 
 func vDoHAbandoned() {
 	verifrt.Unwind(80)
-	verifrt.SchedBound(2)
+	verifrt.SchedBound(2 + verifrt.Tier) // thorough: one more deviation from the default schedule
 	srv := &vDoHServer{silent: true}
 	t := vDoH(srv)
 	ctx, cancel := verifrt.CtxWithCancel(nil)
@@ -102,7 +102,7 @@ func vDoHAbandoned() {
 // bodies are errors.
 func VerifH_C20_DoHPrivateCopy() {
 	verifrt.Unwind(200)
-	verifrt.SchedBound(1)
+	verifrt.SchedBound(1 + verifrt.Tier) // thorough: one more deviation from the default schedule
 	verifrt.CtxNoExpiry = true
 	id := verifrt.U16("id")
 	srv := &vDoHServer{status: 200, reply: []byte{0, 0, 0x80, 0x03, 0, 0, 0, 0, 0, 0, 0, 0}}
